@@ -16,6 +16,7 @@ import (
 	"time"
 
 	"github.com/rhysd/actionlint"
+	"gopkg.in/yaml.v3"
 )
 
 func init() { props["C20"] = runC20 }
@@ -334,6 +335,31 @@ func runC20(c *ctx, r *Report) error {
 		svOut, err := runModel(c.driver, svLines)
 		if err != nil {
 			return err
+		}
+		// the same decisions from the DOCUMENT: parser model, then AL.C20D.shellView (what the two rules read of the AST), then the
+		// visitor models (op `shellvisitdoc`; AL.C20D.doc_sc_handed_written / doc_py_handed_written are about this composition).
+		// It must give what the model gives when fed with the harness's own description of the file.
+		var svdLines []string
+		for fi, f := range files {
+			var rootNode yaml.Node
+			if err := yaml.Unmarshal([]byte(f.yaml(fi)), &rootNode); err != nil {
+				return err
+			}
+			nums := map[string]bool{}
+			node := nodeSexp(&rootNode, nums)
+			exNumbers(&rootNode, nums)
+			svdLines = append(svdLines, "shellvisitdoc "+numsSexp(nums)+" "+node)
+		}
+		svdOut, err := runModel(c.driver, svdLines)
+		if err != nil {
+			return err
+		}
+		for fi := range svdOut {
+			r.Evaluations++
+			if svdOut[fi] != svOut[fi] {
+				r.disagree(Case{Op: "shellvisitdoc", Input: map[string]string{"workflow": files[fi].yaml(fi)}, Impl: svOut[fi] + " (the visitor model fed with the generator's description of the file)", Model: svdOut[fi]})
+			}
+			r.hist("shellvisitdoc:agrees-with-shellvisit")
 		}
 		modelDecision := func(fi, ji, si int) (string, bool) {
 			jobs := strings.Split(svOut[fi], ";")
